@@ -399,25 +399,7 @@ def run_property(a, prop, scratch, t0):
                 o.status = 'undecided'
                 o.detail = 'machinery regression: the kept seeded change %s was detected by the Verus/syntactic engines when it was recorded and is not any more' % st['seed']
                 obls.append(o)
-    # ---- bounded stand-in for units that left the verifier's reach (rewritten handlers: not extractable / anchor lost) -------------
-    # The real operator is swept natively against the executable transcription of its definition (tools/replaysearch.py REFS:
-    # items {0,1,2}, length <= 4, three endings, parameters 0..3).  Only a REFUTATION is used: a disagreement is a concrete failing
-    # input on the real code and turns the undecided obligation into a violation (labelled bounded); agreement proves nothing and
-    # the obligation stays undecided.
-    if prop == 'C02':
-        import replaysearch
-        for o in obls:
-            if o.status == 'undecided' and o.unit in replaysearch.REFS and (
-                    (o.engine == 'verus' and re.match(r'(not_extractable|anchor)', o.detail or '')) or
-                    (o.engine == 'syntactic' and o.id.endswith('.skeleton'))):
-                w = replaysearch.verus_witness(o.unit, snap, scratch)
-                if w and w.get('witness'):
-                    o.status = 'failed'
-                    o.bound = 'bounded stand-in (native sweep; the unit is no longer extractable for Verus): items {0,1,2}, length <= 4, 3 endings'
-                    o.detail = 'unit not extractable (%s); the bounded native sweep of the real operator disagrees with the definition: %s' % (o.detail[:200], json.dumps(w['witness']))
-                    o.extra['sweep'] = w
-                elif w:
-                    o.detail += ' || bounded native sweep found no disagreement (%s): still undecided' % w.get('witness_search', '')
+    bounded_refutation(prop, obls, snap, scratch)
     # ---- verdict -----------------------------------------------------------------------------------------------
     known = load_known()
     violations, undecided, kf_lines, not_explored = [], [], [], []
@@ -470,6 +452,29 @@ def run_property(a, prop, scratch, t0):
     return rc
 
 
+def bounded_refutation(prop, obls, snap, scratch):
+    # ---- bounded stand-in for units that left the verifier's reach (rewritten handlers: not extractable / anchor lost) -------------
+    # The real operator is swept natively against the executable transcription of its definition (tools/replaysearch.py REFS:
+    # items {0,1,2}, length <= 4, three endings, parameters 0..3).  Only a REFUTATION is used: a disagreement is a concrete failing
+    # input on the real code and turns the undecided obligation into a violation (labelled bounded); agreement proves nothing and
+    # the obligation stays undecided.
+    if prop != 'C02':
+        return
+    import replaysearch
+    for o in obls:
+        if o.status == 'undecided' and o.unit in replaysearch.REFS and (
+                (o.engine == 'verus' and re.match(r'(not_extractable|anchor)', o.detail or '')) or
+                (o.engine == 'syntactic' and o.id.endswith('.skeleton'))):
+            w = replaysearch.verus_witness(o.unit, snap, scratch)
+            if w and w.get('witness'):
+                o.status = 'failed'
+                o.bound = 'bounded stand-in (native sweep; the unit is no longer extractable for Verus): items {0,1,2}, length <= 4, 3 endings'
+                o.detail = 'unit not extractable (%s); the bounded native sweep of the real operator disagrees with the definition: %s' % (o.detail[:200], json.dumps(w['witness']))
+                o.extra['sweep'] = w
+            elif w:
+                o.detail += ' || bounded native sweep found no disagreement (%s): still undecided' % w.get('witness_search', '')
+
+
 def self_test(prop, snap, scratch, pl):
     """thorough tier: every kept seeded change of this property that the Verus/syntactic engines caught when it was recorded is
     applied to a scratch copy and must still fail one of their obligations (guards against contracts that silently got weaker)"""
@@ -501,6 +506,7 @@ def self_test(prop, snap, scratch, pl):
         if 'syntactic' in pl['engines']:
             import syntactic
             obls += syntactic.collect(prop, d)
+        bounded_refutation(prop, obls, d, sc2)
         known = load_known()
         bad = [o.id for o in obls if o.status == 'failed' and not match_known(o, known, prop)]
         rec['detected'] = bool(bad)
